@@ -116,6 +116,52 @@ def instances(tier, rng):
     return out
 
 
+def _pattern(h, w, on_set):
+    """x assignment (segments in geometry order, then is_passed, then is_cross) for a set of active segments"""
+    segs, npts, inc, pairs = geometry(h, w)
+    on = [((k, y, x) in on_set) for (k, y, x, p, q) in segs]
+    deg = [sum(1 for i in inc[p] if on[i]) for p in range(npts)]
+    return on + [d > 0 for d in deg] + [d == 4 for d in deg]
+
+
+def _cells_boundary(cells):
+    """segments on the boundary of a set of cells (XOR of the unit loops): every lattice point gets an even degree"""
+    out = set()
+    for (y, x) in cells:
+        for sg in (("h", y, x), ("h", y + 1, x), ("v", y, x), ("v", y, x + 1)):
+            out ^= {sg}
+    return out
+
+
+def spot(tier, rng):
+    """frames whose 3-nodes-per-point graph has more than 128 nodes, segments and both returned arrays PINNED, all rank / root
+    auxiliaries symbolic: several strands, strands touching the last rows and columns, crossings in the last interior row"""
+    out = []
+    for (h, w) in ([(4, 5), (5, 4), (2, 9)] if tier == "quick" else [(4, 5), (5, 4), (2, 9), (9, 2), (5, 5), (3, 7), (6, 6)]):
+        pats = []
+        allc = [(y, x) for y in range(h) for x in range(w)]
+        pats.append(_pattern(h, w, set()))
+        pats.append(_pattern(h, w, _cells_boundary(allc)))                                   # perimeter
+        pats.append(_pattern(h, w, _cells_boundary([(0, 0), (h - 1, w - 1)])))                 # two unit loops, opposite corners
+        pats.append(_pattern(h, w, _cells_boundary([(0, 0), (0, w - 1)])))
+        pats.append(_pattern(h, w, _cells_boundary([(h - 1, 0), (h - 1, w - 1)])))
+        pats.append(_pattern(h, w, _cells_boundary([(h - 2, w - 2), (h - 1, w - 1)])))         # figure eight, crossing in the last interior row
+        pats.append(_pattern(h, w, _cells_boundary([(h - 2, 0), (h - 1, 1)])))
+        pats.append(_pattern(h, w, _cells_boundary([(0, 0), (1, 1)]) | _cells_boundary([(h - 1, w - 1)])))
+        # open trails: a vertical run through a horizontal run, crossing in the last interior row / column
+        if h >= 2 and w >= 2:
+            pats.append(_pattern(h, w, {("v", y, 1) for y in range(h)} | {("h", h - 1, x) for x in range(w)}))
+            pats.append(_pattern(h, w, {("v", y, w - 1) for y in range(h)} | {("h", 1, x) for x in range(w)}))
+            pats.append(_pattern(h, w, {("v", y, 1) for y in range(h)} | {("h", h - 1, x) for x in range(w)} | {("h", 0, w - 1)}))
+        for _ in range(6 if tier == "quick" else 14):
+            cells = [c for c in allc if rng.random() < rng.choice([0.15, 0.3, 0.5])]
+            pats.append(_pattern(h, w, _cells_boundary(cells)))
+        for cyc in (False, True):
+            out.append(dict(name="spot-frame%dx%d/cyc%d/pr0" % (h, w, cyc), h=h, w=w, cycle=cyc, primitive=False, api="connected", patterns=pats))
+        out.append(dict(name="spot-frame%dx%d/cyc1/pr1" % (h, w), h=h, w=w, cycle=True, primitive=True, api="connected", patterns=pats))
+    return out
+
+
 def key_of(d, kind):
     return "cycle=%d,primitive=%d,%s" % (d["cycle"], d["primitive"], kind)
 
@@ -129,7 +175,8 @@ def run(tier, only=None):
          "x": "all frame segments + both returned arrays are free",
          "spec": "degree set, interior-only 4-way points, is_passed/is_cross definitions, one strand = connectivity of the "
                  "segment graph (segments adjacent iff they share a point that is not 4-way, or are collinear at it)"},
-        ["larger frames"], E.EXPL, tmo_quick=120, tmo_thorough=600)
+        ["larger frames (beyond 3x3 / 2x4 only the pinned spot patterns on 4x5 ... 6x6 frames are decided: a sample of patterns, all "
+         "auxiliaries symbolic)"], E.EXPL, tmo_quick=120, tmo_thorough=600, spot=spot)
 
 
 replay = E.generic_replay
